@@ -1526,7 +1526,7 @@ def _format_typedef_body(td, indent, offset):
             parts.append([])
         parts[-1].append(term)
 
-    if parts[0] == []:
+    if parts[0] == [] and len(parts) > 1:
         parts = [parts[1]]
     assert len(parts) <= 2
     if len(parts) == 1:
@@ -1538,7 +1538,9 @@ def _format_typedef_body(td, indent, offset):
             _format_conjunction(Conjunction(parts[1]), _base_indent + indent))
 
     if td.docstring is not None:
-        docstring = '\n  ' + _format_docstring(td.docstring, 2)
+        docstring = _format_docstring(td.docstring, 2)
+        if formatted_conj:
+            docstring = '\n  ' + docstring
     else:
         docstring = ''
 
@@ -1552,7 +1554,7 @@ def _format_docstring(doc, indent):
     if lines:
         if lines[0].strip() == '':
             lines = lines[1:]
-        if lines[-1].strip() == '':
+        if lines and lines[-1].strip() == '':
             lines = lines[:-1]
     ind = ' ' * indent
     contents = _escape_docstring(
